@@ -275,24 +275,32 @@ func filterIgnored(
 ) ([]diagnostic, error) {
 	couldHaveMatched := func(ig *lineIgnore) bool {
 		for _, c := range ig.Checks {
-			if c.String() == "u1000" {
-				// We never want to flag ignores for U1000,
-				// because U1000 isn't local to a single
-				// package. For example, an identifier may
-				// only be used by tests, in which case an
-				// ignore would only fire when not analyzing
-				// tests. To avoid spurious "useless ignore"
-				// warnings, just never flag U1000.
-				return false
-			}
-
 			// Even though the runner always runs all analyzers, we
 			// still only flag unmatched ignores for the set of
 			// analyzers the user has expressed interest in. That way,
 			// `staticcheck -checks=SA1000` won't complain about an
 			// unmatched ignore for an unrelated check.
-			if allowedAnalyzers[c] {
-				return true
+			//
+			// Checks in directives are globs, so we have to look for
+			// any enabled analyzer that the glob matches.
+			for name, allowed := range allowedAnalyzers {
+				if !allowed {
+					continue
+				}
+				if name.String() == "u1000" {
+					// We never want to flag ignores for U1000,
+					// because U1000 isn't local to a single
+					// package. For example, an identifier may
+					// only be used by tests, in which case an
+					// ignore would only fire when not analyzing
+					// tests. To avoid spurious "useless ignore"
+					// warnings, U1000 never makes an ignore
+					// flaggable.
+					continue
+				}
+				if m, _ := filepath.Match(c.String(), name.String()); m {
+					return true
+				}
 			}
 		}
 
